@@ -3,7 +3,7 @@
    state, panics) changes.  Then the byte level: serialising the erased events is serialising the
    events while skipping the bytes of every SpAttr, and the Cr decisions are unaffected. *)
 From Coq Require Import List NArith Bool Strings.String.
-From V Require Import Base.Bytes Base.Res Model.Ast Model.Tagfilter0 Model.Html Spec.HtmlSpec Proofs.HtmlNest.
+From V Require Import Base.Bytes Base.Res Model.Ast Model.Tagfilter Model.Html Spec.HtmlSpec Proofs.HtmlNest.
 Import ListNotations.
 Local Open Scope list_scope.
 
